@@ -36,7 +36,9 @@ SeqOpts(o) == [snake |-> o.snake, keep |-> o.keepSpaces, escdec |-> o.escDec, ca
 N(l) == NM("", l)
 ProbeDoc == XE(N(<<"D", "-", "a">>), <<[nm |-> N(<<"x", "-", "Y">>), v |-> <<"1">>], [nm |-> N(<<"B">>), v |-> <<" ", "&">>]>>,
                <<XT(<<"\n">>), XE(N(<<"e", "-", "f">>), <<>>, <<XT(<<" ", "7", " ">>)>>), XE(N(<<"e", "-", "f">>), <<>>, <<XT(<<"<", "v">>)>>), XE(N(<<"g">>), <<>>, <<>>), XE(N(<<"s">>), <<>>, <<XT(<<" ", " ">>)>>),      \* (s: a run of blanks, a value under keep-spaces)
+                 XE(N(<<"n">>), <<>>, <<XT(<<"`", "v", "`">>)>>),     \* (` stands for a no-break space: white space for Unicode, DATA for XML -- never trimmed)
                  XE(N(<<"h">>), <<[nm |-> N(<<"k">>), v |-> <<"q">>]>>, <<XT(<<"t", "r", "u", "e">>)>>), XT(<<"\n">>)>>)
+ProbeSimpleDoc == XE(N(<<"T", "-", "i">>), <<>>, <<XT(<<" ", "h", "i", " ">>)>>)
 ProbeSeqDoc == XE(NM("p", <<"A">>), <<[nm |-> N(<<"z", "-", "z">>), v |-> <<"1", "&">>]>>,
                   <<XC(<<"c">>), XE(N(<<"B", "-", "c">>), <<>>, <<XT(<<" ", "v", " ">>)>>), XE(N(<<"d">>), <<>>, <<XT(<<"<", "7">>)>>),
                     XE(N(<<"_", "e">>), <<>>, <<XT(<<"1">>)>>), XE(N(<<"s">>), <<>>, <<XT(<<" ", " ">>)>>)>>)      \* (a tag that begins with a character some attribute prefixes consist of: the sequence codec knows no attribute prefix)
@@ -127,7 +129,7 @@ XmppResult(o, arg) ==
 J2xNumResult(o) == LET mm == VM((<<"n">> :> (IF o.jsonUseNumber THEN [t |-> "jn", v |-> <<"1", ".", "5", "0">>] ELSE VF(<<"1", ".", "5">>))) @@ (<<"s">> :> VS(<<"x">>)))
                    IN Join(RenderCompact(EncodeRoot(mm, <<>>, EncOpts(o)), EncOpts(o)))
 \* the operations: [op |-> class, arg |-> which]
-AllOps == {[op |-> "dec", arg |-> a] : a \in {"plain", "cast"}} \cup {[op |-> "seq", arg |-> "plain"], [op |-> "enc", arg |-> "plain"]}
+AllOps == {[op |-> "dec", arg |-> a] : a \in {"plain", "cast", "simple"}} \cup {[op |-> "seq", arg |-> "plain"], [op |-> "enc", arg |-> "plain"]}
           \cup {[op |-> "leaf", arg |-> a] : a \in {"T", "F"}}
           \cup {[op |-> "query", arg |-> Join(s)] : s \in SubKeyStrs}
           \cup {[op |-> "upd", arg |-> Join(s)] : s \in NewValStrs}        \* UpdateValuesForPath(s, "a") on a copy of the query probe
@@ -150,7 +152,8 @@ Enabled(o, op) == CASE op.op \in {"seq", "enc", "cast", "seqrt", "beautify", "xm
 QueryResult(o, s) == LET pc == ParseSubKey(s, o.fieldSep) IN
                      IF pc.ok THEN [ok |-> TRUE, vals |-> VFK(ProbeQMap, "a", {pc.c})] ELSE [ok |-> FALSE, vals |-> <<>>]
 OpResult(o, op) ==
-  CASE op.op = "dec" -> Jsonable(Decode(ProbeDoc, DecOpts(o, op.arg = "cast")))
+  CASE op.op = "dec" -> IF op.arg = "simple" THEN Jsonable(Decode(ProbeSimpleDoc, DecOpts(o, FALSE)))      \* (a root that holds nothing but text: no register gives it a wrapper)
+                        ELSE Jsonable(Decode(ProbeDoc, DecOpts(o, op.arg = "cast")))
     [] op.op = "seq" -> Jsonable(DecodeSeq(ProbeSeqDoc, SeqOpts(o)))
     [] op.op = "enc" -> Join(RenderCompact(EncodeRoot(ProbeMap, <<>>, EncOpts(o)), EncOpts(o)))
     [] op.op = "leaf" -> LeafSeq(ProbeLeafMap, op.arg = "T", o.dot, AttrKeysOf(o), o.keyPrefix \o "text")
